@@ -1142,7 +1142,7 @@ const FULL_TEXT_LIMIT: usize = 1500;
 ///   [4,metrics] register_all | [5] record_start | [6] record_end | [7,p] save_to_file(p) |
 ///   [8,p] remove file p | [9,p,len,b] some other program writes len bytes to p |
 ///   [10,k] go on with collector k | [11,ms] sleep |
-///   [12,base,count,v,mode] for i < count on c<base+i>: set_counter(v) (mode 0) / increment(v) (1) /
+///   [12,base,count,v,mode] for i = count-1 down to 0 on c<base+i>: set_counter(v) (mode 0) / increment(v) (1) /
 ///                          one register_all of counters v (2)
 /// After EVERY step: [result (0 ok, 1 err), elapsed ns | null, [lo,hi] | null (record_end with a
 /// start before it: the harness's own bracket), digest of to_string_pretty(to_json()), digest of
@@ -1227,10 +1227,11 @@ fn run_saves(input: &Value) -> Value {
             11 => std::thread::sleep(Duration::from_millis(arg(1) as u64)),
             12 => {
                 let (base, count, v, mode) = (arg(1), arg(2), st[3].as_u64().unwrap(), arg(4));
+                // highest index first (the model's sorted insertion is linear that way)
                 match mode {
-                    0 => (0..count).for_each(|i| c.set(&name_str(base + i), v)),
-                    1 => (0..count).for_each(|i| c.inc(&name_str(base + i), v)),
-                    _ => c.reg_all((0..count).map(|i| make_metric(base + i, 0, v as i64)).collect()),
+                    0 => (0..count).rev().for_each(|i| c.set(&name_str(base + i), v)),
+                    1 => (0..count).rev().for_each(|i| c.inc(&name_str(base + i), v)),
+                    _ => c.reg_all((0..count).rev().map(|i| make_metric(base + i, 0, v as i64)).collect()),
                 }
             }
             _ => return json!(["bad-step"]),
@@ -1985,15 +1986,16 @@ fn generate(seed: u64, tier: Tier, em: &mut Emitter) {
     }
     // (c) two collectors of k and k/2 metrics taking turns on one path, then every value shrinks
     //     from 19 digits to one: k across the powers of two
-    let mut sizes: Vec<i64> = vec![1, 2, 4, 8, 16, 20, 32, 64, 128, 256, 512, 1024];
+    //     (names c1000.. : equal width, so that byte order = numeric order)
+    let mut sizes: Vec<i64> = vec![1, 2, 4, 8, 16, 20, 32, 64, 128, 256, 512];
     if thorough {
-        sizes.extend([2048, 4096]);
+        sizes.extend([1024, 2048, 4096]);
     }
     for &k in &sizes {
         let half = (k / 2).max(1);
         let steps = json!([
-            [12, 0, k, pow10(19), 2], [7, 0], [10, 1], [12, 0, half, 5, 0], [7, 0], [10, 0], [7, 0],
-            [12, 0, k, 1, 0], [7, 0], [12, 0, k, pow10(10), 1], [7, 0], [7, 1]
+            [12, 1000, k, pow10(19), 2], [7, 0], [10, 1], [12, 1000, half, 5, 0], [7, 0], [10, 0], [7, 0],
+            [12, 1000, k, 1, 0], [7, 0], [12, 1000, k, pow10(10), 1], [7, 0], [7, 1]
         ]);
         em.case("saves", json!([2, 2, steps]), true, &["saves", "sizes"]);
     }
